@@ -5,22 +5,29 @@ Three kinds of cases:
 * `memohist`  a key sequence through the REAL `pybtex.utils.memoize` (small capacities) around a counting
               function, compared call by call with the model (`Memo.call`): result, did the function run,
               evictions, `memory`, `history` (closure cells read by introspection);
-* `worldhist` a history of ABSTRACT API calls (the model's `Call` alphabet) with a fixed probe repeated at every
-              position: executed for real in this process, every call's result and the observable world after it
-              (month table, errors.*, registry, both name caches) compared with the model; every probe result
-              compared with the same probe in a FRESH interpreter process and with the model's fresh-world value;
+* `worldhist` a history of ABSTRACT API calls (the model's `Call` alphabet, incl. command-line `main()` in-process,
+              filtered and key-less readers) with a fixed probe repeated at every position: executed for real in a
+              forked child of this process, every call's result and the observable world after it (month table,
+              errors.*, registry, both name caches) compared with the model; the CONCRETE outcome of every call
+              compared with the first occurrence of the same call in the case, and - probes, a fixed pool of calls,
+              every history call of the cases marked fresh='all' - with the same call in a FRESH interpreter;
+              every database object deep-frozen (all attributes) before / after it is formatted or written;
 * `freshhist` histories over CONCRETE calls the model cannot predict (tests/data/xampl.bib through every style,
-              backend and format; malformed input): oracle only (fresh process, month table, frozen inputs, caches).
+              backend and format, filtered by citation lists; malformed input; key-less files): oracle only.
 """
 import ast
 import collections
+import hashlib
 import io as _io
 import itertools
 import json
 import os
 import re
+import shutil
 import subprocess
 import sys
+import tempfile
+from collections.abc import Mapping, Set
 
 import compat
 from compat import REPO, VERIF
@@ -29,6 +36,7 @@ from props.base import corpus_for  # noqa: F401
 ID = 'C18'
 LEAN_MODULES = ['PybtexModel.Props.C18']
 SERIAL = False
+CASE_TIMEOUT = 300      # a case is a whole history (up to ~2500 calls in the cache-overflow cases), run in a forked child
 THEOREMS = {
     'C18_memo_transparent': 'memoize: after EVERY call sequence the cache is part of the graph of f, holds at most `capacity` entries and '
                             '`history` lists exactly its keys, oldest first, once each; hence a memoised call returns f(args) whatever was '
@@ -47,25 +55,65 @@ THEOREMS = {
     'C18_history_independent': 'for every finite history h of public calls at top level and every probe p: result p (run h w0) = result p w0',
     'C18_history_independent_fresh': '... in particular w0 = the state of a fresh interpreter',
 }
-for _n in ('C18_memo_transparent', 'C18_months_constant', 'C18_readers_independent', 'C18_deterministic', 'C18_history_independent'):
+THEOREMS.update({
+    'C18_readers_independent_wanted': 'a reader that reads filtered by a citation list (wanted_entries) keeps its own set of wanted keys: what becomes '
+                                      'wanted while it reads (cross-reference targets) never reaches another reader, filtered or not',
+    'C18_reader_accumulates': 'entries accumulate across the files of one reader (ordinary, filtered, key-less): after any files read without '
+                              'raising, everything the reader held before is still there in the same order (entries, preamble), the wanted set '
+                              'only grows, the citation spellings stay and the unnamed-entry counter never goes back (proposed fix C18-4)',
+    'C18_reader_accumulates_neg_pinned': 'witness that the model can fail: with the counter set back to 1 for every file (pinned tree) the key-less '
+                                         'entry of a second file is named unnamed-1 again, reported as repeated and lost',
+    'C18_format_name_out_of_range': 'format.name$ with a name number outside 1..count (0, negative, count+1), from ANY state of the two caches: '
+                                    'the problem is reported through report_error (collected / raised / warned + error_code), the result is the '
+                                    'empty string, the formatter cache and the month table are untouched; a number inside the range always finds '
+                                    'its name (the indexing inside the memoised body never raises IndexError)',
+    'C18_cli_main_independent': 'a command-line main() called in-process (CommandLine.main, after proposed fix C18-3): its exit status after any '
+                                'history (earlier main() runs with warnings included) is its status in the initial world and does not depend on '
+                                'the accumulated error_code; errors.strict is as before afterwards (with or without --strict); every probe after '
+                                'h ++ [main()] returns what it returns in the initial world',
+    'C18_cli_main_neg_pinned': 'witness that the model can fail: with CommandLine.main as on the pinned tree (strict never put back, status = sticky '
+                               'error_code) three runs good / warning / good exit 0, 2, 2, strict stays False and a later API parse of an '
+                               'undefined macro no longer raises',
+})
+for _n in ('C18_memo_transparent', 'C18_months_constant', 'C18_readers_independent', 'C18_deterministic', 'C18_history_independent',
+           'C18_format_name_out_of_range', 'C18_cli_main_independent', 'C18_readers_independent_wanted', 'C18_reader_accumulates'):
     THEOREMS[_n + '_nonvacuous'] = 'the hypotheses of %s are satisfied by a concrete non-trivial instance' % _n
 
 RULE = ('memohist: EVERY key sequence of length <= 6 over 4 keys for capacities 2 and 3 (and capacity 2 with one raising key), plus capacity 1 up to '
         'length 4; worldhist: seeded random histories of <= 5 (quick) / <= 8 (thorough) calls over {parse .bib with @string in strict/capture/'
-        'non-strict mode, parse yaml, parse bibtexml, to_string each format, Python format_bibliography, BibTeX-engine run (unsrt/plain/missing .bst), '
-        'Python-engine run (unsrt/plain/alpha/unknown), format.name$ (incl. too many commas, broken format), direct LowLevelParser (default / own table), '
-        'batches of > capacity distinct format.name$ calls} with a 4-call probe (parse + both engines + one name format) repeated at every position and '
-        'compared with a fresh /venv/bin/python process; freshhist: tests/data/xampl.bib through styles/backends/formats; '
+        'non-strict mode, parse yaml, parse bibtexml, to_string each format (the same database object written twice), Python format_bibliography '
+        '(the same database and style object formatted three times, format_entries on a caller\'s list), BibTeX-engine run (unsrt / plain / the '
+        'check\'s own tiny.bst with a macro table of its own / missing .bst) and Python-engine run (unsrt/plain/alpha/unknown) with a multi-element '
+        'citation list, format.name$ (incl. too many commas, broken format, name number 0 / -1 / count+1), direct LowLevelParser (default / own '
+        'table), command-line main() in-process (pybtex-convert, pybtex-format; with and without --strict; clean, warning and failing input), '
+        'batches of > capacity distinct format.name$ calls, an earlier call of the history made again} with a 4-call probe (8 probe sets covering '
+        'every call kind) repeated at every position and compared with a fresh /venv/bin/python process; EVERY call\'s concrete outcome is compared '
+        'with its first occurrence in the case, and for the fixed pool of calls and all history calls of the first 140 (quick) / 1600 (thorough) '
+        'cases with a fresh interpreter; every case runs in a forked child of a process that never calls pybtex; freshhist: tests/data/xampl.bib '
+        'through styles/backends/formats, filtered by citation lists, key-less entries; '
         'non-trivial = memo sequence with more distinct keys than capacity, or non-empty history; distinct by case JSON')
 TRUSTED = ['introspection of the closure cells `memory`/`history`/`capacity` of pybtex.utils.memoize (harness only)',
-           'a subprocess of /venv/bin/python with the same harness module is "a fresh interpreter"',
+           'a subprocess of /venv/bin/python with the same harness module is "a fresh interpreter" (all probes); for the other compared calls: a '
+           'child forked from a template process that has imported the harness and pybtex modules but made no pybtex call (a sample of these is '
+           're-checked against separately started interpreters on every run)',
            'the C04/C11/C12 models (name splitting, Person, format_name) are what the driver uses for the un-modelled name code',
-           'Python == on the argument tuples of the memoised functions is structural equality (str and int arguments only)']
+           'Python == on the argument tuples of the memoised functions is structural equality (str and int arguments only)',
+           'deep_freeze (harness): the canonical JSON of every attribute reachable from a database object is what "the database" means for '
+           '"never modifies it"']
 ASSUMPTIONS = ['everything outside the named state (month table, the two memo closures, errors.*, _RUNTIME_PLUGINS) reaches it only through '
                'report_error, format.name$, find_plugin and a fresh .bib reader; hidden caches of re / PyYAML / xml / latexcodec are covered only '
                'empirically (fresh-process comparison)',
                'histories run at top level (not inside an enclosing errors.capture())',
-               '.bib literals in modelled documents are white-space normalised; tokenising is C01\'s subject']
+               '.bib literals in modelled documents are white-space normalised; tokenising is C01\'s subject',
+               'engine runs over in-memory strings in NON-strict mode are driven only when they print no located problem (undefined macro): printing '
+               'one crashes on the unchanged tree (AttributeError in pybtex.io._decode_filename, the "file name" being a StringIO; a C16/C17 matter)',
+               'wanted_entries and the unnamed-entry counter are modelled for the reader (parse with wanted_entries=... / keyless_entries=True: '
+               'filtering, the caller\'s spelling of cited keys, cross-reference targets becoming wanted, key-less entries numbered per reader); '
+               'a document is written either for a key-less reader or for an ordinary one (for the other it is a chain of syntax errors: C01/C10); '
+               'engine runs of modelled histories cite every entry (explicit keys + "*"): their citation handling after reading '
+               '(add_extra_citations, missing citations) is not in the Lean model and is covered by the fresh-process comparison only',
+               'the model follows proposed_fixes/C18-3.diff (command-line main(): exit status of this run only, strict mode put back) and '
+               'C18-4.diff (unnamed-entry counter per reader, not per file)']
 
 PY = '/venv/bin/python'
 HARNESS_DIR = os.path.dirname(os.path.dirname(os.path.abspath(__file__)))
@@ -155,6 +203,9 @@ def canon_err(e):
             return [n, ast.literal_eval(m.group(1))]
         except Exception:
             return [n, msg]
+    if n == 'BibTeXError':
+        m = re.match(r'there is no name number (-?\d+) in "(.*)"$', msg, re.S)
+        return [n, 'name %s/%s' % (m.group(1), m.group(2))] if m else [n, '']
     if n == 'PluginNotFound':
         m = re.match(r'plugin (.*) not found$', msg, re.S)
         return [n, m.group(1)] if m else [n, '']
@@ -190,14 +241,52 @@ def cache_problems():
     return out
 
 
+def deep_freeze(x, seen=None):
+    """canonical JSON of EVERYTHING reachable from a Python object: every attribute (`__dict__`, slots), the items of
+    mappings / sequences IN ORDER, the members of sets; cycles are cut"""
+    seen = set() if seen is None else seen
+    if x is None or isinstance(x, (bool, int, float, str)):
+        return x
+    if isinstance(x, bytes):
+        return {'bytes': x.decode('latin-1')}
+    if id(x) in seen:
+        return '<cycle>'
+    seen = seen | {id(x)}
+    out = {'class': type(x).__name__}
+    if isinstance(x, (list, tuple, collections.deque)):
+        out['items'] = [deep_freeze(v, seen) for v in x]
+    elif isinstance(x, Mapping):
+        out['items'] = [[deep_freeze(k, seen), deep_freeze(v, seen)] for k, v in x.items()]
+    elif isinstance(x, (set, frozenset, Set)):
+        out['members'] = sorted(json.dumps(deep_freeze(v, seen), sort_keys=True) for v in x)
+    d = getattr(x, '__dict__', None)
+    if isinstance(d, dict) and d and not isinstance(x, type):
+        out['attrs'] = {k: deep_freeze(v, seen) for k, v in sorted(d.items())}
+    for klass in type(x).__mro__:
+        for slot in getattr(klass, '__slots__', ()):
+            if isinstance(slot, str) and hasattr(x, slot):
+                out.setdefault('attrs', {})[slot] = deep_freeze(getattr(x, slot), seen)
+    if isinstance(x, collections.defaultdict):
+        out['default_factory'] = getattr(x.default_factory, '__name__', repr(x.default_factory))
+    return out
+
+
 def freeze_db(db):
-    """canonical JSON of a BibliographyData: entries / fields / persons / preamble"""
-    ents = []
-    for key, e in db.entries.items():
-        ents.append({'key': key, 'ekey': e.key, 'type': e.type, 'fields': [[k, v] for k, v in e.fields.items()],
-                     'persons': [[role, [[list(p.first_names), list(p.middle_names), list(p.prelast_names), list(p.last_names),
-                                          list(p.lineage_names)] for p in ps]] for role, ps in e.persons.items()]})
-    return canon({'entries': ents, 'preamble': list(db.preamble_list)})
+    """canonical JSON of a BibliographyData: ALL its attributes (entries with every attribute of every Entry / Person,
+    preamble, wanted_entries, citations, crossref_count, min_crossrefs ...), dict orders included"""
+    return deep_freeze(db)
+
+
+def _diff_attr(before, after):
+    """name of the first top-level attribute in which two frozen databases differ"""
+    try:
+        a, b = before.get('attrs', {}), after.get('attrs', {})
+        for k in sorted(set(a) | set(b)):
+            if a.get(k) != b.get(k):
+                return k
+    except Exception:  # noqa
+        pass
+    return '?'
 
 
 # ------------------------------------------------------------------------------------------------
@@ -215,9 +304,16 @@ def render_doc(doc):
             out.append('@string{%s = %s}' % (c['name'], render_parts(c['val'])))
         elif c['k'] == 'preamble':
             out.append('@preamble{%s}' % render_parts(c['val']))
+        elif c['k'] == 'keyless':
+            out.append('@%s{\n  %s\n}' % (c['type'], ',\n  '.join('%s = %s' % (n, render_parts(v)) for n, v in c['fields'])))
         else:
             out.append('@%s{%s,\n  %s\n}' % (c['type'], c['key'], ',\n  '.join('%s = %s' % (n, render_parts(v)) for n, v in c['fields'])))
     return '\n\n'.join(out) + '\n'
+
+
+def is_keyless(docs):
+    """the reader for these documents is made with keyless_entries=True (then EVERY entry is written without a key)"""
+    return any(c['k'] == 'keyless' for d in docs for c in d)
 
 
 YAML_TEXT = '''entries:
@@ -286,28 +382,112 @@ def _format_name_builtin(names, n, fmt):
     return i.pop()
 
 
+def style_arg(style):
+    """what is passed as `style=` to the BibTeX engine: tests/data/<style> of the tree under test; `tiny` is the check's own style"""
+    if style == 'tiny':
+        return os.path.join(VERIF, 'corpus', 'C18', 'tiny')
+    return os.path.join(REPO, 'tests', 'data', style)
+
+
+def citations_for(files):
+    """the citation list given to an engine run: every key of the files once (first spelling, document order) and then '*':
+    a list with several elements, so that reordering it in place is visible; the entries cited are the same as for ['*']"""
+    keys, seen = [], set()
+    for d in files:
+        for c in d:
+            if c['k'] == 'entry' and c['key'].lower() not in seen:
+                seen.add(c['key'].lower())
+                keys.append(c['key'])
+    return keys + ['*']
+
+
+def _latex(formatted):
+    from pybtex.plugin import find_plugin
+    buf = _io.StringIO()
+    find_plugin('pybtex.backends', 'latex')().write_to_stream(formatted, buf)
+    return buf.getvalue()
+
+
+def _run_cli(call, notes):
+    """a command-line entry point called in-process: pybtex-convert (.bib -> .yaml) for an inner `parse`, pybtex-format for an
+    inner `python` run; result = the exit status"""
+    import pybtex.io
+    inner = call['call']
+    tmp = tempfile.mkdtemp(prefix='c18cli')
+    old_argv, old_err = sys.argv, pybtex.io.stderr
+    buf = _io.StringIO()
+    try:
+        src = os.path.join(tmp, 'in.bib')
+        with open(src, 'w', encoding='utf-8') as f:
+            f.write(render_doc(inner['files'][0]))
+        if inner['c'] == 'parse':
+            from pybtex.database.convert.__main__ import main
+            dst = os.path.join(tmp, 'out.yaml')
+            argv = [src, dst]
+        else:
+            from pybtex.database.format.__main__ import main
+            dst = os.path.join(tmp, 'out.txt')
+            argv = ['--style', inner['style'], '--output-backend', 'plaintext', src, dst]
+        if call['strict']:
+            argv = ['--strict'] + argv
+        sys.argv = [main.prog] + argv
+        pybtex.io.stderr = buf
+        try:
+            main()
+            code = None
+        except SystemExit as e:
+            code = e.code
+        finally:
+            sys.argv, pybtex.io.stderr = old_argv, old_err
+        out = None
+        if os.path.exists(dst):
+            with open(dst, encoding='utf-8') as f:
+                out = f.read()
+        return {'exit': code}, {'exit': code, 'out': out, 'stderr': buf.getvalue().replace(tmp, '<TMP>')}
+    finally:
+        sys.argv, pybtex.io.stderr = old_argv, old_err
+        shutil.rmtree(tmp, ignore_errors=True)
+
+
 def _base_call(call, notes):
     """Returns (model-comparable result, concrete result)."""
     c = call['c']
     if c == 'parse':
         from pybtex.plugin import find_plugin
         cls = find_plugin('pybtex.database.input', 'bibtex')
-        parser = cls()
+        cits = call.get('cits')
+        kw = {'keyless_entries': True} if is_keyless(call['files']) else {}
+        if cits is None:
+            parser = cls(**kw)
+        else:                            # reading filtered by a citation list
+            cits = list(cits)
+            parser = cls(wanted_entries=cits, **kw)
         db = parser.data
-        for d in call['files']:          # the files of ONE reader (parse_files -> parse_file -> parse_stream -> parse_string)
-            db = parser.parse_string(render_doc(d))
+        try:
+            for d in call['files']:      # the files of ONE reader (parse_files -> parse_file -> parse_stream -> parse_string)
+                db = parser.parse_string(render_doc(d))
+        finally:
+            if cits is not None and cits != call['cits']:
+                notes.append('inputs_not_modified: the reader changed the wanted_entries list it was given from %r to %r' % (call['cits'], cits))
+        if kw and cits is None:
+            # files without a single key: no two entries can have "the same key", every entry of every file must be there
+            want = sum(1 for d in call['files'] for c in d if c['k'] == 'keyless')
+            if len(db.entries) != want:
+                notes.append('reader_accumulates: one key-less reader over %d file(s) with %d entries in all holds %d entries %r' % (
+                    len(call['files']), want, len(db.entries), list(db.entries.keys())))
         v = _db_view(db, parser)
         return v, {'db': freeze_db(db), 'macros': v['macros']}
     if c == 'lowlevel':
         from pybtex.database.input.bibtex import LowLevelParser, month_names
         text = render_doc(call['doc'])
         arg = call['arg']
+        kw = {'keyless_entries': True} if is_keyless([call['doc']]) else {}
         if arg == 'default':
-            p = LowLevelParser(text)
+            p = LowLevelParser(text, **kw)
         elif arg == 'module':
-            p = LowLevelParser(text, macros=month_names)
+            p = LowLevelParser(text, macros=month_names, **kw)
         else:
-            p = LowLevelParser(text, macros=dict((k, v) for k, v in arg['table']))
+            p = LowLevelParser(text, macros=dict((k, v) for k, v in arg['table']), **kw)
         low = []
         for command, payload in p:
             cl = command.lower()
@@ -325,26 +505,31 @@ def _base_call(call, notes):
         from pybtex.bibtex.utils import split_name_list
         from pybtex import errors
         with errors.capture():
-            want = format_name(split_name_list(call['names'])[call['n'] - 1], call['fmt'])
+            # the built-in without its caches: a name number outside 1..count is reported and stands for ''
+            parts = split_name_list(call['names'])
+            want = format_name(parts[call['n'] - 1], call['fmt']) if 1 <= call['n'] <= len(parts) else ''
         if s != want:
             notes.append('memo_transparent: format.name$(%r, %r, %r) returned %r, the un-memoised function gives %r' % (
                 call['names'], call['n'], call['fmt'], s, want))
         return {'str': s}, {'str': s}
-    if c == 'bibtex':
-        import pybtex.bibtex
-        cits = ['*']
-        out = pybtex.bibtex.format_from_strings([render_doc(d) for d in call['files']],
-                                                style=os.path.join(REPO, 'tests', 'data', call['style']), citations=cits)
-        if cits != ['*']:
-            notes.append('inputs_not_modified: the BibTeX engine changed the citation list it was given to %r' % (cits,))
+    if c in ('bibtex', 'python'):
+        cits = citations_for(call['files'])
+        given = list(cits)
+        texts = [render_doc(d) for d in call['files']]
+        try:
+            if c == 'bibtex':
+                import pybtex.bibtex
+                out = pybtex.bibtex.format_from_strings(texts, style=style_arg(call['style']), citations=cits)
+            else:
+                import pybtex
+                out = pybtex.format_from_strings(texts, style=call['style'], citations=cits)
+        finally:
+            if cits != given:
+                notes.append('inputs_not_modified: the %s engine changed the citation list it was given from %r to %r' % (
+                    'BibTeX' if c == 'bibtex' else 'Python', given, cits))
         return {'str': 'bbl'}, {'str': out}
-    if c == 'python':
-        import pybtex
-        cits = ['*']
-        out = pybtex.format_from_strings([render_doc(d) for d in call['files']], style=call['style'], citations=cits)
-        if cits != ['*']:
-            notes.append('inputs_not_modified: the Python engine changed the citation list it was given to %r' % (cits,))
-        return {'str': 'bbl'}, {'str': out}
+    if c == 'climain':
+        return _run_cli(call, notes)
     if c == 'plugin':
         from pybtex import errors
         from pybtex.plugin import find_plugin
@@ -358,18 +543,40 @@ def _base_call(call, notes):
         with errors.capture():
             db = parse_string(text, 'bibtex')
         before = freeze_db(db)
-        if group == 'pybtex.database.output':
-            out = db.to_string(name)
-        elif group == 'pybtex.style.formatting':
-            formatted = cls().format_bibliography(db)
-            buf = _io.StringIO()
-            find_plugin('pybtex.backends', 'latex')().write_to_stream(formatted, buf)
-            out = buf.getvalue()
-        else:
-            raise ValueError(group)
-        if freeze_db(db) != before:
-            notes.append('inputs_not_modified: %s %s modified the database it was given' % (group, name))
-        return sym, {'str': out}
+        full = {}
+        try:
+            if group == 'pybtex.database.output':
+                # the SAME database object is written twice
+                full['str'] = db.to_string(name)
+                full['again'] = db.to_string(name)
+                if full['again'] != full['str']:
+                    notes.append('repeat_identical: to_string(%r) twice on the same database object gives different results: %s' % (
+                        name, _first_diff(full['again'], full['str'])))
+            elif group == 'pybtex.style.formatting':
+                # the SAME database object (and style object) is formatted three times: only the child `w2` of the
+                # cross-reference w2 -> w1, everything (two keys, reversed), and the child again
+                style = cls()
+                keys = list(db.entries.keys())
+                for label, cits in (('child', keys[-1:]), ('str', keys[::-1]), ('again', keys[-1:])):
+                    given = list(cits)
+                    full[label] = _latex(style.format_bibliography(db, cits))
+                    if cits != given:
+                        notes.append('inputs_not_modified: %s format_bibliography changed the citation list it was given from %r to %r' % (name, given, cits))
+                if full['again'] != full['child']:
+                    notes.append('repeat_identical: %s format_bibliography(db, %r) twice on the same database object gives different results: %s' % (
+                        name, keys[-1:], _first_diff(full['again'], full['child'])))
+                ents = [db.entries[k] for k in keys[::-1]]
+                ids = [id(e) for e in ents]
+                full['entries'] = [e.key for e in style.format_entries(ents, db)]
+                if [id(e) for e in ents] != ids:
+                    notes.append('inputs_not_modified: %s format_entries reordered the list of entries it was given' % name)
+            else:
+                raise ValueError(group)
+        finally:
+            after = freeze_db(db)
+            if after != before:
+                notes.append('inputs_not_modified: %s %s modified the database it was given (attribute %s)' % (group, name, _diff_attr(before, after)))
+        return sym, full
     return _concrete_call(call, notes)
 
 
@@ -415,24 +622,49 @@ def _concrete_call(call, notes):
     if c == 'x_parse':
         db = parse_file(_data(call['file']), call.get('fmt'))
         return {'str': 'x'}, {'db': freeze_db(db)}
-    if c == 'x_bibtex':
-        import pybtex.bibtex
-        out = pybtex.bibtex.format_from_file(_data(call['bib']), style=_data(call['style']))
-        return {'str': 'x'}, {'str': out}
-    if c == 'x_python':
-        import pybtex
-        out = pybtex.format_from_file(_data(call['bib']), style=call['style'], output_backend=call.get('backend'))
+    if c in ('x_bibtex', 'x_python'):
+        kw = {}
+        cits = given = None
+        if call.get('cits') is not None:          # an explicit citation list: the file is read filtered (wanted_entries)
+            cits = list(call['cits'])
+            given = list(cits)
+            kw['citations'] = cits
+        try:
+            if c == 'x_bibtex':
+                import pybtex.bibtex
+                out = pybtex.bibtex.format_from_file(_data(call['bib']), style=_data(call['style']), **kw)
+            else:
+                import pybtex
+                out = pybtex.format_from_file(_data(call['bib']), style=call['style'], output_backend=call.get('backend'), **kw)
+        finally:
+            if cits != given:
+                notes.append('inputs_not_modified: %s changed the citation list it was given from %r to %r' % (c, given, cits))
         return {'str': 'x'}, {'str': out}
     if c == 'x_convert':
         db = parse_file(_data(call['file']))
         before = freeze_db(db)
         text = db.to_string(call['fmt'])
-        if freeze_db(db) != before:
-            notes.append('inputs_not_modified: to_string(%r) modified the database' % call['fmt'])
+        after = freeze_db(db)
+        if after != before:
+            notes.append('inputs_not_modified: to_string(%r) modified the database (attribute %s)' % (call['fmt'], _diff_attr(before, after)))
         back = parse_string(text, call['fmt'])
         return {'str': 'x'}, {'text': text, 'back': freeze_db(back)}
     if c == 'x_text':
         db = parse_string(call['text'], call.get('fmt', 'bibtex'))
+        return {'str': 'x'}, {'db': freeze_db(db)}
+    if c == 'x_keyless':
+        # entries without keys (`keyless_entries`): the unnamed-entry counter; the files of ONE reader
+        from pybtex.database.input.bibtex import Parser
+        parser = Parser(keyless_entries=True, wanted_entries=call.get('cits'))
+        db = parser.data
+        for text in call['texts']:
+            db = parser.parse_string(text)
+        if call.get('cits') is None and all(t in KEYLESS_COUNT for t in call['texts']):
+            # well-formed files without a single key: no two entries can have "the same key"
+            want = sum(KEYLESS_COUNT[t] for t in call['texts'])
+            if len(db.entries) != want:
+                notes.append('reader_accumulates: one key-less reader over %d files with %d entries in all holds %d entries %r' % (
+                    len(call['texts']), want, len(db.entries), list(db.entries.keys())))
         return {'str': 'x'}, {'db': freeze_db(db)}
     raise ValueError('unknown call %r' % c)
 
@@ -466,20 +698,124 @@ def fresh_result(call):
     return _FRESH[k]
 
 
-def prewarm(calls):
-    todo = []
-    seen = set()
+# A cheaper source of "fresh" results for the many history calls that are compared as well: a TEMPLATE process that has
+# imported the harness and the pybtex modules but has not made a single pybtex call forks one child per request; the child
+# computes the call and exits.  Module-level state of a forked child = module-level state right after import = a fresh
+# interpreter (the probes themselves are still run in separately started /venv/bin/python processes).
+
+def _preimport():
+    """IMPORTS only (no pybtex call): so that forked children do not pay for them"""
+    import pybtex, pybtex.bibtex, pybtex.database, pybtex.plugin, pybtex.errors, pybtex.io  # noqa: F401,E401
+    import pybtex.database.input.bibtex, pybtex.bibtex.builtins, pybtex.bibtex.interpreter, pybtex.cmdline  # noqa: F401,E401
+    import pybtex.database.input.bibyaml, pybtex.database.input.bibtexml, pybtex.database.output.bibtex  # noqa: F401,E401
+    import pybtex.database.output.bibyaml, pybtex.database.output.bibtexml, pybtex.backends.latex  # noqa: F401,E401
+    import pybtex.style.formatting.unsrt, pybtex.style.formatting.plain, pybtex.style.formatting.alpha  # noqa: F401,E401
+    import pybtex.database.convert.__main__, pybtex.database.format.__main__  # noqa: F401,E401
+
+
+def _template_main():
+    _preimport()
+    out = sys.stdout
+    for line in sys.stdin:
+        call = json.loads(line)
+        r, w = os.pipe()
+        pid = os.fork()
+        if pid == 0:
+            code = 0
+            try:
+                os.close(r)
+                devnull = os.open(os.devnull, os.O_WRONLY)
+                os.dup2(devnull, 1)
+                os.dup2(devnull, 2)
+                try:
+                    data = json.dumps(run_call(call, [])['full'])
+                except BaseException as e:  # noqa
+                    data = json.dumps({'template_error': '%s: %s' % (type(e).__name__, e)})
+                buf = data.encode('utf-8')
+                while buf:
+                    buf = buf[os.write(w, buf):]
+            except BaseException:  # noqa
+                code = 1
+            os._exit(code)
+        os.close(w)
+        chunks = []
+        while True:
+            b = os.read(r, 1 << 16)
+            if not b:
+                break
+            chunks.append(b)
+        os.close(r)
+        os.waitpid(pid, 0)
+        out.write('RESULT ' + b''.join(chunks).decode('utf-8') + '\n')
+        out.flush()
+
+
+class _Template(object):
+    def __init__(self):
+        code = 'import sys; sys.path.insert(0, %r); import props.c18 as m; m._template_main()' % HARNESS_DIR
+        self.p = subprocess.Popen([PY, '-c', code], stdin=subprocess.PIPE, stdout=subprocess.PIPE, stderr=subprocess.DEVNULL,
+                                  text=True, env=os.environ.copy())
+
+    def ask(self, call):
+        self.p.stdin.write(json.dumps(call) + '\n')
+        self.p.stdin.flush()
+        while True:
+            line = self.p.stdout.readline()
+            if not line:
+                raise RuntimeError('template process died')
+            if line.startswith('RESULT '):
+                r = json.loads(line[7:])
+                if isinstance(r, dict) and 'template_error' in r:
+                    raise RuntimeError(r['template_error'])
+                return r
+
+    def close(self):
+        try:
+            self.p.stdin.close()
+            self.p.wait(timeout=20)
+        except Exception:  # noqa
+            self.p.kill()
+
+
+def prewarm(calls, forked=()):
+    """fill _FRESH: `calls` in separately started interpreter processes, `forked` in children of pristine template processes"""
+    from concurrent.futures import ThreadPoolExecutor
+    jobs = int(os.environ.get('VERIF_JOBS', '16'))
+    todo, seen = [], set()
     for c in calls:
         k = canon(c)
         if k not in _FRESH and k not in seen:
             seen.add(k)
             todo.append(c)
-    if not todo:
-        return
-    from concurrent.futures import ThreadPoolExecutor
-    with ThreadPoolExecutor(int(os.environ.get('VERIF_JOBS', '16'))) as ex:
-        for c, r in zip(todo, ex.map(_spawn_fresh, todo)):
-            _FRESH[canon(c)] = r
+    todo2 = []
+    for c in forked:
+        k = canon(c)
+        if k not in _FRESH and k not in seen:
+            seen.add(k)
+            todo2.append(c)
+    if todo:
+        with ThreadPoolExecutor(jobs) as ex:
+            for c, r in zip(todo, ex.map(_spawn_fresh, todo)):
+                _FRESH[canon(c)] = r
+    if todo2:
+        if os.environ.get('VERIF_C18_SPAWN'):
+            with ThreadPoolExecutor(jobs) as ex:
+                for c, r in zip(todo2, ex.map(_spawn_fresh, todo2)):
+                    _FRESH[canon(c)] = r
+            return
+        n = max(1, min(jobs, len(todo2) // 4 + 1))
+        parts = [todo2[i::n] for i in range(n)]
+
+        def work(part):
+            t = _Template()
+            try:
+                return [t.ask(c) for c in part]
+            finally:
+                t.close()
+        with ThreadPoolExecutor(n) as ex:
+            for part, rs in zip(parts, ex.map(work, parts)):
+                for c, r in zip(part, rs):
+                    _FRESH[canon(c)] = r
 
 
 # ------------------------------------------------------------------------------------------------
@@ -542,14 +878,92 @@ def expand_many(call):
             for i in range(call['start'], call['start'] + call['count'])]
 
 
+def _digest(x):
+    return hashlib.sha1(canon(x).encode('utf-8')).hexdigest()[:16]
+
+
+def _needs_fresh(case):
+    fresh_all = case.get('fresh') == 'all'
+    out = []
+    for call, is_probe, _pos in flatten(case):
+        if call['c'] != 'fmtmany' and (is_probe or fresh_all or canon(call) in POOL_KEYS):
+            out.append(call)
+    return out
+
+
 def impl_world(case):
+    """Every case runs in a forked child of this process, which itself never calls pybtex: whatever state a case leaves behind
+    (also in places nobody knows of) cannot reach the next case, and a stored case replays alone as it ran in the stream."""
+    if os.environ.get('VERIF_C18_NOFORK'):
+        return _impl_world(case)
+    _preimport()
+    for call in _needs_fresh(case):
+        fresh_result(call)                 # cached here, inherited by the child
+    r, w = os.pipe()
+    sys.stdout.flush()
+    sys.stderr.flush()
+    pid = os.fork()
+    if pid == 0:
+        code = 0
+        try:
+            os.close(r)
+            try:
+                data = json.dumps(_impl_world(case))
+            except BaseException as e:  # noqa
+                import traceback
+                data = json.dumps({'harness_error': '%s: %s' % (type(e).__name__, e), 'tb': traceback.format_exc()[-1500:]})
+            buf = data.encode('utf-8')
+            while buf:
+                buf = buf[os.write(w, buf):]
+        except BaseException:  # noqa
+            code = 1
+        os._exit(code)
+    os.close(w)
+    chunks = []
+    try:
+        while True:
+            b = os.read(r, 1 << 16)
+            if not b:
+                break
+            chunks.append(b)
+    except BaseException:       # e.g. the per-case time limit of check.py: do not leave the child behind
+        try:
+            os.kill(pid, 9)
+        except OSError:
+            pass
+        raise
+    finally:
+        os.close(r)
+        os.waitpid(pid, 0)
+    if not chunks:
+        raise RuntimeError('the child process running the case died')
+    return json.loads(b''.join(chunks).decode('utf-8'))
+
+
+def _impl_world(case):
+    """Runs probe, h1, probe, h2, ... in THIS process.  Per call: the model-comparable result and the observable world after it.
+    The CONCRETE outcome of every call (`full`) is compared
+      * with the first occurrence of the same call in this case (clause repeat_identical),
+      * probes, calls of the fixed POOL and — in cases marked fresh='all' — every history call: with the same call in a FRESH
+        interpreter process (clause history_independent);
+    the comparisons are reported as notes with a readable difference; digests of the probe outcomes travel in the output."""
     notes = []
     steps = []
     probe_full = collections.defaultdict(list)
+    first = {}
     lit = month_literal()
     from pybtex.database.input import bibtex as B
     reset_process_state()
     months_bad = False
+    fresh_all = case.get('fresh') == 'all'
+    history = list(case['history'])
+    said = set()
+
+    def say(kind, text):
+        if kind not in said:        # one note per kind and case: the first one
+            said.add(kind)
+            notes.append(text)
+
     try:
         for idx, (call, is_probe, pos) in enumerate(flatten(case)):
             if call['c'] == 'fmtmany':
@@ -558,15 +972,28 @@ def impl_world(case):
             else:
                 r = run_call(call, notes)
             steps.append({'res': r['res'], 'world': world_view()})
+            key = canon(call)
+            if key in first:
+                if canon(first[key][1]) != canon(r['full']):
+                    say('repeat', 'repeat_identical: call #%d (%s) after [%s] returned something else than the same call made as call #%d of this history: %s' % (
+                        idx, describe(call), ', '.join(describe(h) for h in history[:pos]), first[key][0], _first_diff(r['full'], first[key][1])))
+            else:
+                first[key] = (idx, r['full'])
             if is_probe:
-                probe_full[pos].append(r['full'])
+                probe_full[pos].append(_digest(r['full']))
+            if call['c'] != 'fmtmany' and (is_probe or fresh_all or key in POOL_KEYS):
+                want = fresh_result(call)
+                if canon(want) != canon(r['full']):
+                    say('fresh', 'history_independent: %s %s after %d history calls [%s] differs from the same computation in a fresh interpreter process: %s' % (
+                        'probe' if is_probe else 'call', describe(call), pos - (0 if is_probe else 1),
+                        ', '.join(describe(h) for h in history[:pos - (0 if is_probe else 1)]), _first_diff(r['full'], want)))
             if B.month_names != lit and not months_bad:
                 # reported once; the table is put back at the end of the case so that the probes that follow show the leak
                 months_bad = True
                 diff = {k: B.month_names.get(k) for k in sorted(set(B.month_names) | set(lit)) if B.month_names.get(k) != lit.get(k)}
                 notes.append('months_constant: after call #%d (%s) month_names differs from its source literal in %r' % (idx, describe(call), diff))
             notes.extend(cache_problems())
-        fresh = [fresh_result(p) for p in case.get('probe', [])]
+        fresh = [_digest(fresh_result(p)) for p in case.get('probe', [])]
     finally:
         reset_process_state()
     return {'op': case['op'], 'steps': steps, 'probe_full': [probe_full[p] for p in sorted(probe_full)], 'fresh': fresh, 'notes': sorted(set(notes))}
@@ -582,10 +1009,16 @@ def describe(call):
     c = call['c']
     if c in ('capture', 'nonstrict'):
         return '%s(%s)' % (c, describe(call['call']))
+    if c == 'climain':
+        return 'climain%s(%s)' % ('--strict' if call['strict'] else '', describe(call['call']))
     if c == 'plugin':
         return '%s:%s' % (call['group'].split('.')[-1], call['name'])
     if c in ('bibtex', 'python'):
         return '%s:%s' % (c, call['style'])
+    if c == 'parse' and is_keyless(call['files']):
+        return 'parse:keyless'
+    if c == 'parse' and call.get('cits') is not None:
+        return 'parse:wanted' 
     if c == 'lowlevel':
         return 'lowlevel:%s' % (call['arg'] if isinstance(call['arg'], str) else 'table')
     return c
@@ -708,15 +1141,15 @@ def oracle(case, io, reply):
                 fails.append('history_independent: call #%d (%s, after %d history calls) returned %s; in a fresh interpreter it returns %s' % (
                     i, describe(call), pos, canon(got)[:400], canon(want)[:400]))
                 break
-    for pos, fulls in enumerate(io['probe_full']):
-        for j, (got, want) in enumerate(zip(fulls, io['fresh'])):
-            if canon(got) != canon(want):
-                fails.append('history_independent: probe %s after %d history calls [%s] differs from the same computation in a fresh interpreter process: %s vs fresh %s' % (
-                    describe(case['probe'][j]), pos, ', '.join(describe(h) for h in case['history'][:pos]), _first_diff(got, want), ''))
+    if not any(f.startswith('history_independent: probe') for f in fails):
+        # digests of the concrete probe outcomes at every position against the digests from the fresh interpreter processes
+        # (the readable difference is in the notes above; this loop is the clause itself)
+        for pos, fulls in enumerate(io['probe_full']):
+            bad = [j for j, (got, want) in enumerate(zip(fulls, io['fresh'])) if got != want]
+            if bad:
+                fails.append('history_independent: probe %s after %d history calls [%s] differs from the same computation in a fresh interpreter process (digest %s vs %s)' % (
+                    describe(case['probe'][bad[0]]), pos, ', '.join(describe(h) for h in case['history'][:pos]), fulls[bad[0]], io['fresh'][bad[0]]))
                 break
-        else:
-            continue
-        break
     for step in io['steps']:
         w = step['world']
         if w['strict'] is not True or w['captured'] is not None or w['plugins'] != 0:
@@ -769,7 +1202,7 @@ def _lit(s):
     return {'lit': s}
 
 
-def gen_free_doc(rng):
+def gen_free_doc(rng, crossref=False):
     doc = []
     for _ in range(rng.randint(1, 4)):
         r = rng.random()
@@ -785,8 +1218,15 @@ def gen_free_doc(rng):
                     fields.append([name, [_lit(rng.choice(AUTHORS))]])
                 else:
                     fields.append([name, parts()])
+            if crossref and rng.random() < 0.5:
+                fields.insert(rng.randint(0, len(fields)), [rng.choice(['crossref', 'crossref', 'Crossref']), [_lit(rng.choice(KEYS + ['K2']))]])
             doc.append({'k': 'entry', 'type': rng.choice(['article', 'Misc', 'book']), 'key': rng.choice(KEYS), 'fields': fields})
     return doc
+
+
+def make_keyless(docs):
+    """the same documents written for a key-less reader: no entry has a key"""
+    return [[({'k': 'keyless', 'type': c['type'], 'fields': c['fields']} if c['k'] == 'entry' else c) for c in d] for d in docs]
 
 
 def gen_engine_doc(rng):
@@ -803,6 +1243,9 @@ def gen_engine_doc(rng):
         fields = [['author', [_lit(rng.choice(AUTHORS))]], ['title', val()], ['year', [_lit('1999')]]]
         if rng.random() < 0.5:
             fields.append(['month', [{'ref': rng.choice(['jan', 'feb', 'dec'])}]])
+        if rng.random() < 0.25:
+            # an OPTIONAL field whose macro only another style defines (or nobody): reported, stands for '', no style warning
+            fields.append(['note', [{'ref': rng.choice(['zzleak', 'zzleak', 'nope', 'acmcs'])}]])
         if rng.random() < 0.7:
             doc.append({'k': 'entry', 'type': 'article', 'key': key, 'fields': fields + [['journal', val()]]})
         else:
@@ -819,34 +1262,78 @@ def _mode(rng, call, strict_ok=True):
     return call
 
 
+def _safe_mode(rng, call):
+    """like _mode; a non-strict engine run that would PRINT a located problem (see _valid_call) is captured instead"""
+    m = _mode(rng, call)
+    return m if _valid_call(m) else {'c': 'capture', 'call': call}
+
+
+def gen_fmtname(rng):
+    names = rng.choice(AUTHORS)
+    count = len(re.split(r' and ', names))
+    n = rng.randint(1, count) if rng.random() < 0.72 else rng.choice([0, count + 1, -1])
+    return {'c': 'fmtname', 'names': names, 'n': n, 'fmt': rng.choice(FORMATS)}
+
+
+def gen_climain(rng):
+    if rng.random() < 0.6:
+        inner = {'c': 'parse', 'files': [rng.choice([gen_free_doc(rng), PDOC, PDOC_UNDEF, PDOC_UNDEF])]}
+    else:
+        inner = {'c': 'python', 'style': rng.choice(['unsrt', 'plain', 'nosuch']), 'files': [rng.choice([gen_engine_doc(rng), PDOC])]}
+    call = {'c': 'climain', 'strict': rng.random() < 0.25, 'call': inner}
+    return _cap(call) if rng.random() < 0.15 else call
+
+
 def gen_call(rng):
     r = rng.random()
-    if r < 0.18:
-        return _mode(rng, {'c': 'parse', 'files': [gen_free_doc(rng) for _ in range(rng.randint(1, 2))]})
-    if r < 0.28:
+    if r < 0.15:
+        call = {'c': 'parse', 'files': [gen_free_doc(rng, crossref=True) for _ in range(rng.randint(1, 2))]}
+        r2 = rng.random()
+        if r2 < 0.4:                     # reading filtered by a citation list (wanted_entries)
+            call['cits'] = rng.sample(KEYS + ['K2', 'SMITH99', '*'], rng.randint(0, 3))
+        elif r2 < 0.6:                   # a key-less reader (one or two files), sometimes filtered as well
+            call['files'] = make_keyless(call['files'])
+            if rng.random() < 0.3:
+                call['cits'] = rng.sample(['unnamed-1', 'UNNAMED-2', 'unnamed-3', 'k1', '*'], rng.randint(1, 2))
+        return _mode(rng, call)
+    if r < 0.22:
         arg = 'default' if rng.random() < 0.7 else {'table': [[k, rng.choice(WORDS)] for k in rng.sample(MACROS, rng.randint(0, 2))]}
-        return {'c': 'lowlevel', 'arg': arg, 'doc': gen_free_doc(rng)}
-    if r < 0.46:
-        names = rng.choice(AUTHORS)
-        n = rng.randint(1, len(re.split(r' and ', names)))
-        return _mode(rng, {'c': 'fmtname', 'names': names, 'n': n, 'fmt': rng.choice(FORMATS)})
-    if r < 0.62:
-        style = rng.choice(['unsrt', 'unsrt', 'plain', 'plain', 'nosuch'])
-        return _mode(rng, {'c': 'bibtex', 'style': style, 'files': [gen_engine_doc(rng) for _ in range(rng.randint(1, 2))]})
-    if r < 0.76:
+        doc = gen_free_doc(rng)
+        return {'c': 'lowlevel', 'arg': arg, 'doc': make_keyless([doc])[0] if rng.random() < 0.15 else doc}
+    if r < 0.37:
+        return _mode(rng, gen_fmtname(rng))
+    if r < 0.54:
+        style = rng.choice(['unsrt', 'unsrt', 'plain', 'plain', 'tiny', 'tiny', 'tiny', 'nosuch'])
+        if style == 'tiny' and rng.random() < 0.5:
+            files = [gen_free_doc(rng) for _ in range(rng.randint(1, 2))]
+        else:
+            files = [gen_engine_doc(rng) for _ in range(rng.randint(1, 2))]
+        return _safe_mode(rng, {'c': 'bibtex', 'style': style, 'files': files})
+    if r < 0.66:
         style = rng.choice(['unsrt', 'plain', 'alpha', 'unsrtalpha', 'nosuch'])
-        return _mode(rng, {'c': 'python', 'style': style, 'files': [gen_engine_doc(rng)]})
-    if r < 0.84:
+        return _safe_mode(rng, {'c': 'python', 'style': style, 'files': [gen_engine_doc(rng)]})
+    if r < 0.73:
         return _mode(rng, {'c': 'plugin', 'group': 'pybtex.database.input', 'name': rng.choice(['yaml', 'bibtexml', 'nosuch']),
                            'text': None})
-    if r < 0.92:
+    if r < 0.81:
         return _mode(rng, {'c': 'plugin', 'group': 'pybtex.database.output', 'name': rng.choice(['bibtex', 'yaml', 'bibtexml', 'nosuch']), 'text': DB_TEXT})
-    return _mode(rng, {'c': 'plugin', 'group': 'pybtex.style.formatting', 'name': rng.choice(['unsrt', 'plain', 'alpha']), 'text': DB_TEXT})
+    if r < 0.88:
+        return _mode(rng, {'c': 'plugin', 'group': 'pybtex.style.formatting', 'name': rng.choice(['unsrt', 'plain', 'alpha']), 'text': DB_TEXT})
+    return gen_climain(rng)
+
+
+def gen_history(rng, maxh):
+    """1..maxh calls; now and then an earlier call of the history is made AGAIN later (compared with its first outcome)"""
+    hist = [_fix_plugin_text(gen_call(rng)) for _ in range(rng.randint(1, maxh))]
+    if len(hist) < maxh and rng.random() < 0.35:
+        again = json.loads(json.dumps(rng.choice(hist)))
+        hist.insert(rng.randint(hist.index(again) + 1, len(hist)), again)
+    return hist
 
 
 def _fix_plugin_text(call):
     c = call
-    while c['c'] in ('capture', 'nonstrict'):
+    while c['c'] in ('capture', 'nonstrict', 'climain'):
         c = c['call']
     if c['c'] == 'plugin' and c['text'] is None:
         c['text'] = {'yaml': YAML_TEXT, 'bibtexml': XML_TEXT}.get(c['name'], YAML_TEXT)
@@ -883,18 +1370,100 @@ PROBES = [
      _cap({'c': 'python', 'style': 'plain', 'files': [PDOC]}), {'c': 'fmtname', 'names': 'Knuth, Donald E. and A, B, C, D', 'n': 1, 'fmt': '{ff~}{vv~}{ll}{, jj}'}],
 ]
 
+# probes of the kinds the original three sets do not contain: the other two readers, the three writers, format_bibliography
+# on a retained database object, the check's own .bst style (no month macros; its own macro `zzleak`), a name number out of
+# range, the command-line entry points
+PDOC_ZZ = [{'k': 'entry', 'type': 'article', 'key': 'z1', 'fields': [
+    ['author', [_lit('Leslie Lamport')]], ['title', [_lit('Alpha')]], ['journal', [_lit('J. Algebra')]], ['year', [_lit('1999')]],
+    ['month', [{'ref': 'dec'}]], ['note', [{'ref': 'zzleak'}]]]}]
+
+
+def _plug(group, name, text):
+    return {'c': 'plugin', 'group': 'pybtex.' + group, 'name': name, 'text': text}
+
+
+PROBES += [
+    [_plug('database.input', 'yaml', YAML_TEXT), _plug('database.input', 'bibtexml', XML_TEXT),
+     _cap({'c': 'bibtex', 'style': 'tiny', 'files': [PDOC]}), _plug('style.formatting', 'plain', DB_TEXT)],
+    [_plug('database.output', 'bibtex', DB_TEXT), _plug('database.output', 'yaml', DB_TEXT), _plug('database.output', 'bibtexml', DB_TEXT),
+     {'c': 'climain', 'strict': False, 'call': {'c': 'parse', 'files': [PDOC]}}],
+    [_cap({'c': 'bibtex', 'style': 'unsrt', 'files': [PDOC_ZZ]}), _cap({'c': 'bibtex', 'style': 'tiny', 'files': [PDOC_ZZ, PDOC]}),
+     {'c': 'climain', 'strict': False, 'call': {'c': 'python', 'style': 'unsrt', 'files': [PDOC]}},
+     _cap({'c': 'fmtname', 'names': 'Knuth, Donald E. and Leslie Lamport', 'n': 0, 'fmt': '{ff~}{vv~}{ll}{, jj}'})],
+    [_plug('style.formatting', 'unsrt', DB_TEXT), _plug('style.formatting', 'alpha', DB_TEXT),
+     {'c': 'climain', 'strict': True, 'call': {'c': 'parse', 'files': [PDOC_UNDEF]}},
+     {'c': 'fmtname', 'names': 'Leslie Lamport', 'n': 2, 'fmt': '{ll}'}],
+]
+
+
+# reading filtered by a citation list: only the child is cited (in another spelling); its parent p9 follows it and is read
+# because the child refers to it; k1, k2, smith99 are not wanted
+PDOC_XREF = [
+    {'k': 'entry', 'type': 'misc', 'key': 'c1', 'fields': [['title', [_lit('Alpha')]], ['crossref', [_lit('p9')]]]},
+    {'k': 'entry', 'type': 'misc', 'key': 'k1', 'fields': [['note', [{'ref': 'nope'}]]]},
+    {'k': 'entry', 'type': 'misc', 'key': 'k2', 'fields': [['note', [_lit('X')]], ['Crossref', [_lit('smith99')]]]},
+    {'k': 'entry', 'type': 'misc', 'key': 'smith99', 'fields': [['note', [_lit('12')]]]},
+    {'k': 'entry', 'type': 'book', 'key': 'p9', 'fields': [['title', [_lit('Beta gamma')]], ['author', [_lit('Leslie Lamport')]]]},
+]
+PROBES += [
+    [_cap({'c': 'parse', 'cits': ['C1'], 'files': [PDOC_XREF]}), _ns({'c': 'parse', 'cits': ['K2', '*', 'k2'], 'files': [PDOC_XREF, PDOC_UNDEF]}),
+     _cap({'c': 'bibtex', 'style': 'plain', 'files': [PDOC_ZZ]}),
+     _ns({'c': 'fmtname', 'names': 'Knuth, Donald E. and Leslie Lamport', 'n': 3, 'fmt': '{vv~}{ll}{, jj}{, f.}'})],
+]
+
+
+def _pool():
+    """history calls that are ALWAYS compared with a fresh interpreter process (a finite set, warmed up once per run)"""
+    base = []
+    for name in ('yaml', 'bibtexml', 'nosuch'):
+        base.append(_plug('database.input', name, {'yaml': YAML_TEXT, 'bibtexml': XML_TEXT}.get(name, YAML_TEXT)))
+    for name in ('bibtex', 'yaml', 'bibtexml', 'nosuch'):
+        base.append(_plug('database.output', name, DB_TEXT))
+    for name in ('unsrt', 'plain', 'alpha'):
+        base.append(_plug('style.formatting', name, DB_TEXT))
+    out = []
+    for c in base:
+        out += [c, _cap(c), _ns(c)]
+    for strict in (False, True):
+        for inner in ({'c': 'parse', 'files': [PDOC]}, {'c': 'parse', 'files': [PDOC_UNDEF]},
+                      {'c': 'python', 'style': 'unsrt', 'files': [PDOC]}, {'c': 'python', 'style': 'plain', 'files': [PDOC]},
+                      {'c': 'python', 'style': 'nosuch', 'files': [PDOC]}):
+            c = {'c': 'climain', 'strict': strict, 'call': inner}
+            out += [c, _cap(c)]
+    return out
+
+
+POOL = _pool()
+POOL_KEYS = frozenset(canon(c) for c in POOL)
+
 XPROBE = [_cap({'c': 'x_parse', 'file': 'xampl.bib'}), _cap({'c': 'x_bibtex', 'bib': 'xampl.bib', 'style': 'unsrt'}),
           _cap({'c': 'x_python', 'bib': 'xampl.bib', 'style': 'unsrt'}), {'c': 'fmtname', 'names': 'Knuth, Donald E. and Leslie Lamport', 'n': 1, 'fmt': '{ff~}{vv~}{ll}{, jj}'}]
+KNOWN_CALLS = frozenset(canon(c) for c in [p for ps in PROBES for p in ps] + POOL + XPROBE)
+
+
+
+XCITS = [None, None, ['whole-set', 'inbook-minimal', 'article-full'], ['book-crossref', 'inbook-crossref', 'whole-collection', 'nosuchkey'],
+         ['ARTICLE-FULL', 'article-minimal', '*']]
+KEYLESS_COUNT = {'@misc{title = "A"} @misc{title = "B", note = jan} @misc{title = "C"}': 3, '@misc{title = "D"}': 1,
+                 '@string{s = "S"} @book{title = s} @misc{title = "F", crossref = "unnamed-1"}': 2}
+KEYLESS = list(KEYLESS_COUNT) + ['@misc{title = "A"} @misc{named, title = "B"} @misc{title = "C"}']
 
 
 def gen_xcall(rng):
     r = rng.random()
-    if r < 0.25:
-        return _mode(rng, {'c': 'x_bibtex', 'bib': rng.choice(['xampl.bib', 'cyrillic.bib']), 'style': rng.choice(['unsrt', 'plain', 'alpha'])})
-    if r < 0.5:
-        return _mode(rng, {'c': 'x_python', 'bib': rng.choice(['xampl.bib', 'cyrillic.bib', 'extrafields.bib']),
+    if r < 0.22:
+        bib = rng.choice(['xampl.bib', 'cyrillic.bib'])
+        return _mode(rng, {'c': 'x_bibtex', 'bib': bib, 'style': rng.choice(['unsrt', 'plain', 'alpha']),
+                           'cits': rng.choice(XCITS) if bib == 'xampl.bib' else None})
+    if r < 0.44:
+        bib = rng.choice(['xampl.bib', 'cyrillic.bib', 'extrafields.bib'])
+        return _mode(rng, {'c': 'x_python', 'bib': bib,
                            'style': rng.choice(['unsrt', 'plain', 'alpha', 'unsrtalpha']),
-                           'backend': rng.choice(['latex', 'html', 'plaintext', 'markdown'])})
+                           'backend': rng.choice(['latex', 'html', 'plaintext', 'markdown']),
+                           'cits': rng.choice(XCITS) if bib == 'xampl.bib' else None})
+    if r < 0.5:
+        # entries without keys (unnamed-entry counter), one reader over one or two files, optionally filtered
+        return _mode(rng, {'c': 'x_keyless', 'texts': rng.sample(KEYLESS, rng.randint(1, 3)), 'cits': rng.choice([None, None, None, ['unnamed-1', 'named']])})
     if r < 0.65:
         return _cap({'c': 'x_convert', 'file': rng.choice(['xampl.bib', 'cyrillic.bib']), 'fmt': rng.choice(['bibtex', 'yaml', 'bibtexml'])})
     if r < 0.8:
@@ -929,12 +1498,18 @@ def valid_case(case):
 def _valid_doc(doc, engine, defined0):
     defined = set(defined0)
     for c in doc:
-        parts = c['val'] if c['k'] != 'entry' else [p for _n, v in c['fields'] for p in v]
+        parts = c['val'] if c['k'] in ('string', 'preamble') else [p for _n, v in c['fields'] for p in v]
         for p in parts:
             if 'lit' in p:
                 if not LIT.match(p['lit']):
                     return False
-            elif not IDENT.match(p['ref']) or (engine and p['ref'].lower() not in defined):
+            elif not IDENT.match(p['ref']):
+                return False
+        if engine is True:
+            # the styles of tests/data warn about empty required fields (un-modelled): every macro must be defined, except in
+            # the optional field `note`
+            checked = c['val'] if c['k'] in ('string', 'preamble') else [p for n, v in c['fields'] if n != 'note' for p in v]
+            if any('ref' in p and p['ref'].lower() not in defined for p in checked):
                 return False
         if c['k'] == 'string':
             if not IDENT.match(c['name']) or not c['val']:
@@ -944,11 +1519,20 @@ def _valid_doc(doc, engine, defined0):
             if not c['val']:
                 return False
         else:
-            if not IDENT.match(c['type']) or c['type'].lower() in ('string', 'preamble', 'comment') or not IDENT.match(c['key']):
+            if c['k'] == 'keyless' and engine is not False:
+                return False              # the engines do not make key-less readers
+            if c['k'] not in ('entry', 'keyless'):
+                return False
+            if not IDENT.match(c['type']) or c['type'].lower() in ('string', 'preamble', 'comment') or (c['k'] == 'entry' and not IDENT.match(c['key'])):
                 return False
             if not c['fields'] or any(not IDENT.match(n) or not v for n, v in c['fields']):
                 return False
-            if engine:
+            if engine == 'tiny':
+                # corpus/C18/tiny.bst warns about nothing, but the model formats the names of every NON-EMPTY author field
+                for n, v in c['fields']:
+                    if n.lower() == 'author' and not (len(v) == 1 and v[0].get('lit') in AUTHORS):
+                        return False
+            if engine is True:
                 names = [n for n, _v in c['fields']]
                 need = {'article': ['author', 'title', 'journal', 'year'], 'book': ['author', 'title', 'publisher', 'year']}.get(c['type'])
                 if need is None or any(n not in names for n in need) or len(set(names)) != len(names) or any(n != n.lower() for n in names):
@@ -964,11 +1548,50 @@ def _valid_doc(doc, engine, defined0):
 MONTHS = ['jan', 'feb', 'mar', 'apr', 'may', 'jun', 'jul', 'aug', 'sep', 'oct', 'nov', 'dec']
 
 
-def _valid_call(call):
+def _all_defined(files, defined0):
+    defined = set(defined0)
+    for d in files:
+        for c in d:
+            parts = c['val'] if c['k'] in ('string', 'preamble') else [p for _n, v in c['fields'] for p in v]
+            if any('ref' in p and p['ref'].lower() not in defined for p in parts):
+                return False
+            if c['k'] == 'string':
+                defined.add(c['name'].lower())
+    return True
+
+
+def _one_kind(docs):
+    """a document is written for a key-less reader or for an ordinary one (for the other one it is a chain of syntax errors)"""
+    kinds = {c['k'] for d in docs for c in d if c['k'] in ('entry', 'keyless')}
+    return len(kinds) <= 1
+
+
+def _valid_call(call, warns=False):
+    """`warns`: the call runs at top level in non-strict mode (problems are PRINTED)"""
     c = call['c']
-    if c in ('capture', 'nonstrict'):
-        return call['call']['c'] not in ('fmtmany',) and _valid_call(call['call'])
+    if canon(call) in KNOWN_CALLS:      # the fixed probes and pool calls
+        return True
+    if c == 'parse' and not _one_kind(call['files']):
+        return False
+    if c == 'lowlevel' and not _one_kind([call['doc']]):
+        return False
+    if c == 'climain' and is_keyless(call['call'].get('files', [])):
+        return False
+    if c == 'capture':
+        return call['call']['c'] not in ('fmtmany',) and _valid_call(call['call'], False)
+    if c == 'nonstrict':
+        return call['call']['c'] not in ('fmtmany',) and _valid_call(call['call'], True)
+    if warns and c in ('bibtex', 'python') and not _all_defined(call['files'], ['zzleak'] if call['style'] == 'tiny' else MONTHS):
+        # printing a LOCATED problem of an engine run over in-memory strings crashes on the unchanged tree (AttributeError in
+        # pybtex.io._decode_filename: the "file name" is a StringIO; a C16/C17 matter, DESIGN section 4): not driven here
+        return False
+    if c == 'climain':
+        inner = call['call']
+        return (isinstance(call['strict'], bool) and inner['c'] in ('parse', 'python') and len(inner['files']) == 1 and _valid_call(inner)
+                and (inner['c'] == 'parse' or inner['style'] in ('unsrt', 'plain', 'nosuch')))
     if c == 'parse':
+        if call.get('cits') is not None and not (isinstance(call['cits'], list) and all(k == '*' or re.match(r'^[A-Za-z][A-Za-z0-9-]*$', k) for k in call['cits'])):
+            return False
         return len(call['files']) >= 1 and all(_valid_doc(d, False, MONTHS) for d in call['files'])
     if c == 'lowlevel':
         if call['arg'] != 'default' and not (isinstance(call['arg'], dict) and all(IDENT.match(k) and LIT.match(v) for k, v in call['arg']['table'])
@@ -976,16 +1599,23 @@ def _valid_call(call):
             return False
         return _valid_doc(call['doc'], False, MONTHS)
     if c == 'fmtname':
-        return call['names'] in AUTHORS + [PROBES[0][3]['names']] and 1 <= call['n'] <= len(call['names'].split(' and ')) and call['fmt'] in FORMATS
+        return call['names'] in AUTHORS + [PROBES[0][3]['names']] and -1 <= call['n'] <= len(call['names'].split(' and ')) + 1 and call['fmt'] in FORMATS
     if c in ('bibtex', 'python'):
         defined = set(MONTHS)
         for d in call['files']:
-            if not _valid_doc(d, True, defined):
+            if not _valid_doc(d, 'tiny' if (c == 'bibtex' and call['style'] == 'tiny') else True, defined):
                 return False
             defined |= {x['name'].lower() for x in d if x['k'] == 'string'}
-        return len(call['files']) >= 1 and call['style'] in ('unsrt', 'plain', 'alpha', 'unsrtalpha', 'nosuch') and (c == 'python' or call['style'] in ('unsrt', 'plain', 'nosuch'))
+        return len(call['files']) >= 1 and call['style'] in ('unsrt', 'plain', 'alpha', 'unsrtalpha', 'nosuch', 'tiny') and (
+            c == 'python' or call['style'] in ('unsrt', 'plain', 'nosuch', 'tiny')) and (c == 'bibtex' or call['style'] != 'tiny')
     if c == 'plugin':
-        return call['text'] in (YAML_TEXT, XML_TEXT, DB_TEXT)
+        names = {'pybtex.database.input': ('yaml', 'bibtexml', 'nosuch'), 'pybtex.database.output': ('bibtex', 'yaml', 'bibtexml', 'nosuch'),
+                 'pybtex.style.formatting': ('unsrt', 'plain', 'alpha')}
+        if call['name'] not in names.get(call['group'], ()):
+            return False
+        if call['group'] == 'pybtex.database.input':
+            return call['text'] == {'yaml': YAML_TEXT, 'bibtexml': XML_TEXT}.get(call['name'], YAML_TEXT)
+        return call['text'] == DB_TEXT
     if c == 'fmtmany':
         return call['count'] >= 1 and call['fmt'] in FORMATS[:4] and IDENT.match(call['prefix']) is not None
     return False
@@ -996,11 +1626,14 @@ def gen_cases(tier, rng, info):
     n_memo = len(cases)
     quick = tier == 'quick'
     maxh = 5 if quick else 8
-    n_world = 1000 if quick else 9000
+    n_world = 840 if quick else 6400
     world = []
+    n_fresh_all = 140 if quick else 1600
     for i in range(n_world):
-        hist = [_fix_plugin_text(gen_call(rng)) for _ in range(rng.randint(1, maxh))]
-        world.append({'op': 'worldhist', 'history': hist, 'probe': PROBES[i % len(PROBES)]})
+        case = {'op': 'worldhist', 'history': gen_history(rng, maxh), 'probe': PROBES[i % len(PROBES)]}
+        if i < n_fresh_all:
+            case['fresh'] = 'all'       # EVERY history call of this case is also run in a fresh interpreter process
+        world.append(case)
     # more distinct format.name$ calls than the caches hold, then everything again
     big = 1100 if quick else 2100
     for j, mode in enumerate(['plain', 'capture'] if quick else ['plain', 'capture', 'nonstrict']):
@@ -1010,12 +1643,19 @@ def gen_cases(tier, rng, info):
             {'c': 'fmtmany', 'prefix': 'Name', 'start': big - 40, 'count': 60, 'fmt': FORMATS[j % 2], 'mode': mode, 'first': 'Ann B.'},
             {'c': 'fmtmany', 'prefix': 'Name', 'start': 0, 'count': 30, 'fmt': FORMATS[2], 'mode': 'plain'}]})
     fresh_cases = []
-    for i in range(24 if quick else 200):
-        fresh_cases.append({'op': 'freshhist', 'history': [gen_xcall(rng) for _ in range(rng.randint(1, 3 if quick else 6))], 'probe': XPROBE})
+    for i in range(24 if quick else 160):
+        fresh_cases.append({'op': 'freshhist', 'history': [gen_xcall(rng) for _ in range(rng.randint(1, 3 if quick else 6))], 'probe': XPROBE,
+                            'fresh': 'all'})
     for c in fresh_cases:
         for h in c['history']:
             _fix_plugin_text(h)
-    prewarm([p for c in world + fresh_cases for p in c['probe']])
+    hist_calls = [h for c in world + fresh_cases if c.get('fresh') == 'all' for h in c['history'] if h['c'] != 'fmtmany']
+    prewarm([p for c in world + fresh_cases for p in c['probe']], forked=POOL + hist_calls)
+    # the forked children against separately started interpreters, on a sample (a difference is a defect of the harness)
+    sample = rng.sample(hist_calls, min(len(hist_calls), 6 if quick else 40))
+    for c in sample:
+        if canon(_spawn_fresh(c)) != canon(_FRESH[canon(c)]):
+            raise RuntimeError('forked fresh child and fresh interpreter process differ on %s' % canon(c)[:300])
     info['exhaustive'] = True
     info['scope'] = ('memohist: all %d key sequences (capacity 2, 3: length <= 6 over 4 keys; capacity 2 with a raising key; capacity 1: length <= 4); '
                      'worldhist: %d seeded histories of <= %d calls x probe at every position (+ %d cache-overflow histories with %d distinct '
@@ -1039,19 +1679,29 @@ LEVEL_TEXT = ('Machine-checked proofs (Lean 4) over an explicit model of the pro
               'sequence and makes a memoised call transparent (also beyond capacity, also for the nested name caches); no history of public calls '
               'changes the month table / strict / registry; two readers are independent while the files of one reader accumulate; the result of '
               'every call is a function of the call and the constant part of the world (simulation over cache contents and error_code), hence for '
-              'every finite history h and probe p: result p (run h w0) = result p w0.  Tied to the code by a correspondence check that drives the '
+              'every finite history h and probe p: result p (run h w0) = result p w0 -- command-line main() in-process included (its exit status is '
+              'that of this run only and the strict mode is put back); format.name$ with a name number outside 1..count reports and yields the '
+              'empty string from any cache state.  Tied to the code by a correspondence check that drives the '
               'real memoize exhaustively over small scopes and real API histories call by call (results, month table, errors.*, registry and both '
-              'cache key lists compared with the model), and by comparing every probe with a fresh interpreter process.')
+              'cache key lists compared with the model), by comparing every probe -- and the concrete outcome of history calls -- with a fresh '
+              'interpreter process and with the first occurrence of the same call, and by deep-freezing every database object before / after it is '
+              'formatted or written.')
 LEVEL_NOTE = ('PARTIAL BY NATURE.  Modelled: month_names (one table; Parser copies it, LowLevelParser writes to the table it is given), '
-              'memoize (dict + FIFO deque, regenerated capacity) instantiated as in builtins.py, errors.strict/error_code/captured_errors with '
-              'report_error/capture/set_strict_mode, _RUNTIME_PLUGINS as read by find_plugin, a fresh BibliographyData and macro copy per reader, '
-              'a fresh Interpreter per BibTeX-engine run (its macro table regenerated from the .bst files).  ASSUMED, not proved: every other piece of '
+              'memoize (dict + FIFO deque, regenerated capacity) instantiated as in builtins.py, the format.name$ built-in with its range check, '
+              'errors.strict/error_code/captured_errors with report_error/capture/set_strict_mode, CommandLine.main (the one entry point that writes '
+              'strict and reads error_code), _RUNTIME_PLUGINS as read by find_plugin, a fresh BibliographyData (with its own wanted_entries / citations '
+              'sets when reading is filtered) and macro copy per reader, '
+              'a fresh Interpreter per BibTeX-engine run (its macro table regenerated from the .bst files, incl. the check\'s own tiny.bst).  ASSUMED, '
+              'not proved: every other piece of '
               'pybtex (bst interpreter, styles, backends, YAML/BibTeXML readers, writers, name code) is a pure function that reaches the named state '
               'only through report_error, format.name$, find_plugin and a fresh .bib reader (parameter `Fns`, interaction tree `Prog`); hidden caches '
-              'of re, PyYAML, xml, latexcodec, importlib.metadata are covered only empirically by the fresh-process comparison.  .bib text is '
+              'of re, PyYAML, xml, latexcodec, importlib.metadata are covered only empirically by the fresh-process comparison; so is the '
+              'citation handling of the engines after reading.  .bib text is '
               'abstracted to its command sequence (tokenising is C01).  error_code is sticky by design (process exit status): the theorems show no '
-              'result reads it.  Histories are taken at top level (captured_errors None).  "Inputs never modified" is a claim about Python object '
-              'state that the pure model cannot express: it is checked on the implementation only (databases deep-frozen before/after to_string '
-              'and format_bibliography, citation lists compared).  The model follows proposed_fixes/C18-1.diff (LowLevelParser default macros) and '
-              'C18-2.diff (name problems reported on cache hits as on misses); the pre-fix aliasing is kept expressible and its failure is proved '
-              '(C18_months_constant_neg_aliased).  Memo keys: Python equality of (str, int, str) tuples is taken to be structural.')
+              'result reads it except main(), which resets it first (C18-3).  Histories are taken at top level (captured_errors None).  "Inputs never '
+              'modified" is a claim about Python object '
+              'state that the pure model cannot express: it is checked on the implementation only (every attribute of the database deep-frozen '
+              'before/after to_string, format_bibliography and format_entries; multi-element citation and entry lists compared).  The model follows '
+              'proposed_fixes/C18-1.diff (LowLevelParser default macros), C18-2.diff (name problems reported on cache hits as on misses), '
+              'C18-3.diff (CommandLine.main) and C18-4.diff (unnamed-entry counter per reader); the pre-fix behaviours are kept expressible and '
+              'their failure is proved (C18_months_constant_neg_aliased, C18_cli_main_neg_pinned, C18_reader_accumulates_neg_pinned).  Memo keys: Python equality of (str, int, str) tuples is taken to be structural.')
